@@ -2,6 +2,7 @@ package PVM
 
 import (
 	"bytes"
+	"math"
 
 	"github.com/New-JAMneration/JAM-Protocol/internal/service_account"
 	"github.com/New-JAMneration/JAM-Protocol/internal/types"
@@ -426,7 +427,8 @@ func transfer(input OmegaInput) (output OmegaOutput) {
 	}
 	// m
 	rawData := input.VM.Memory.Read(o, types.TransferMemoSize)
-	if accountD, accountExists := input.Addition.ResultContextX.PartialState.ServiceAccounts[types.ServiceID(d)]; !accountExists {
+	// d is the whole 64-bit register: a value above 2^32-1 is no service id and must not alias one by truncation
+	if accountD, accountExists := input.Addition.ResultContextX.PartialState.ServiceAccounts[types.ServiceID(d)]; !accountExists || d > math.MaxUint32 {
 		// not exist
 		input.VM.Registers[7] = WHO
 		return OmegaOutput{
